@@ -158,7 +158,7 @@ func (w *logWriter) Write(b []byte) (int, error) {
 func runEnc(args []string) (out string) {
 	proto, _ := strconv.Atoi(args[0])
 	failAt := -1
-	if args[2] != "-" {
+	if args[2] != "-" && args[2] != "r" {
 		failAt, _ = strconv.Atoi(args[2])
 	}
 	p := &encParser{parser: parser{toks: args[3:]}, refs: map[uintptr]*ogorek.Ref{}}
@@ -188,6 +188,15 @@ func runEnc(args []string) (out string) {
 		return r
 	}
 	enc := ogorek.NewEncoderWithConfig(dst, &ogorek.EncoderConfig{Protocol: proto, StrictUnicode: args[1] == "1", PersistentRef: getref})
+	if args[2] == "r" {
+		// a used Encoder: it has already written other pickles to the same Writer; only what the
+		// call under test writes is observed
+		_ = enc.Encode(int64(7))
+		_ = enc.Encode([]any{"x", 1.5})
+		w.writes = nil
+		w.failAt = -1
+		ncalls, nhits = 0, 0
+	}
 	var err error
 	panicked := func() (msg string) {
 		defer func() {
